@@ -351,6 +351,9 @@ def _drive(world, scenario, run, res, hooks):
     res.connects = [verdicts[i] for i in range(len(conns))]
     if cfg.get("stop_on_connect_error", False) and any(v[0] != "ok" for v in res.connects):
         return ("connect_error",)
+    if hooks and hooks.get("bulk"):
+        # (C18: connections made by mosaik.util's bulk helpers on the real World)
+        hooks["bulk"](run, world, ents)
     if cfg.get("mli_late"):
         world.max_loop_iterations = cfg.get("mli", 100)
     if hooks and hooks.get("before_run"):
